@@ -373,8 +373,8 @@ m('reload-counter-from-last-row', ['C10'], CAT, '''		if uint32(oid)+1 > nextTabl
 		}''', '''		nextTableID = uint32(oid) + 1''', ['C10-R1 [RecoveryCatalogFromCatalogPage:nextTableID-is-a-running-maximum]'])
 m('heap-insert-link-page-unpinned-clean', ['C13', 'C09'], TH, '''			newPage.Init(p.GetPageID(), currentPageID, t.logManager, t.lockManager, txn, false)
 			t.bpm.UnpinPage(currentPage.GetPageID(), true)''', '''			newPage.Init(p.GetPageID(), currentPageID, t.logManager, t.lockManager, txn, false)
-			t.bpm.UnpinPage(currentPage.GetPageID(), false)''', ['C13-R8 [(*storage/access.TableHeap).InsertTuple:modified-page-unpinned-clean]'])
-m('hash-iterator-unpins-clean', ['C13', 'C07'], 'lib/container/hash/linear_probe_hash_table_iterator.go', '''		itr.bpm.UnpinPage(itr.blockID, true)''', '''		itr.bpm.UnpinPage(itr.blockID, false)''', ['C13-R8 [(*container/hash.LinearProbeHashTable).Remove:modified-page-unpinned-clean]'])
+			t.bpm.UnpinPage(currentPage.GetPageID(), false)''', ['C13-R8 [(*storage/access.TableHeap).InsertTuple:modified-page-unpinned-clean]', 'C13-R8/heap [(*storage/access.TableHeap).InsertTuple:modified-page-unpinned-clean]'])
+m('hash-iterator-unpins-clean', ['C13', 'C07'], 'lib/container/hash/linear_probe_hash_table_iterator.go', '''		itr.bpm.UnpinPage(itr.blockID, true)''', '''		itr.bpm.UnpinPage(itr.blockID, false)''', ['C13-R8 [(*container/hash.LinearProbeHashTable).Remove:modified-page-unpinned-clean]', 'C13-R8/index [(*container/hash.LinearProbeHashTable).Remove:modified-page-unpinned-clean]'])
 SL = 'lib/container/skip_list/skip_list.go'
 SLB = 'lib/storage/page/skip_list_page/skip_list_block_page.go'
 SLI = 'lib/container/skip_list/skip_list_iterator.go'
@@ -464,6 +464,14 @@ m('skiplist-remove-no-counter-bump', ['C17'], SLB, """		node.RemoveInner(int(fou
 """, """		node.RemoveInner(int(foundIdx))
 
 """, ['C17-R6 [SkipListBlockPage.Remove:counter-bumped-with-RemoveInner'])
+m('deserialize-record-crossing-buffer-end', ['C01', 'C20', 'C09'], LR, """	if uint32(len(data)) < logRecord.Size {
+""", """	if uint32(len(data)) < logRecord.Size && logRecord.Size == 0 {
+""", ['C01-R10 [DeserializeLogRecord:payload-decoded-only-from-a-complete-record]'])
+m('redo-spins-on-torn-tail', ['C01', 'C20'], LR, """		if bufferOffset == 0 {
+			// no complete record at fileOffset (incomplete record at tail of the log file)
+			break
+		}
+""", """""", ['C01-R10 [Redo:chunk-loop-progresses-or-stops]'])
 # drop the one that needs a helper that does not exist
 M = [x for x in M if x['id'] != 'insert-executor-unlocks-early']
 os.chdir(os.path.dirname(os.path.abspath(__file__)) + '/..')
